@@ -187,6 +187,11 @@ func RunConcurrent(sc *Scenario, base string, nsched int, only *Found, st *Stats
 		st.ConcRuns++
 		st.LockWaits += c.lockWaits
 		st.LockTimeouts += c.lockTimeouts
+		if x.crashed && r.IntN(2) == 0 { // the crash was a power loss: unsynced tails are gone
+			st.PowerLossPoints++
+			st.UnsyncedFilesCut += x.powerLoss(r)
+			mode = "power-loss"
+		}
 		switch {
 		case x.crashed:
 			st.ConcCrashes++
@@ -206,6 +211,7 @@ func RunConcurrent(sc *Scenario, base string, nsched int, only *Found, st *Stats
 		_ = x.install(j)
 		st.Runs += 2
 		x.checkTree(fmt.Sprintf("retry after attempts %d and %d interleaved (schedule %d, injected: %s)", i, j, k, mode))
+		st.TornBinaries += x.tornBinaries
 		report(x, i, k, c, clog)
 		_ = os.RemoveAll(sb)
 	}
